@@ -14,6 +14,7 @@ import (
 	"io/ioutil"
 	"math"
 	"math/big"
+	"net"
 	"path/filepath"
 	"reflect"
 	"sort"
@@ -601,7 +602,7 @@ func pickColumn(r *vh.Rng, d mdesc, v driver.Value) sqlcol {
 	}
 	// text / bytes; a binary-tagged field lives in a BLOB (see the report: VARBINARY comes back from the
 	// binlog decoder as a string, which the binary branch of Scanner.Scan rejects)
-	if d.tag == "TBinary" && d.kind == "cbin" {
+	if d.tag == "TBinary" {
 		return sqlcol{kind: "blob"}
 	}
 	if r.Bool() {
@@ -695,6 +696,11 @@ func genValue(r *vh.Rng, t reflect.Type, implicitZero bool, hist func(string)) r
 		}
 		p := reflect.New(t.Elem())
 		p.Elem().Set(genValue(r, t.Elem(), false, hist))
+		if et := t.Elem(); (et == blobType || et == tokenType) && p.Elem().IsNil() {
+			// a pointer to a nil Blob / Token is written as the encoding of the empty value and comes back
+			// pointing at an empty one (the class pointer-to-nil-slice of *[]byte)
+			p.Elem().SetBytes([]byte{})
+		}
 		return p
 	}
 	v := reflect.New(t).Elem()
@@ -727,6 +733,29 @@ func genValue(r *vh.Rng, t reflect.Type, implicitZero bool, hist func(string)) r
 	case nullStrType:
 		if !r.Chance(35) {
 			v.Set(reflect.ValueOf(sql.NullString{String: r.Pick(strPool), Valid: true}))
+		}
+		return v
+	case ipType:
+		switch r.Intn(4) {
+		case 0: // nil: NULL
+		case 1:
+			v.Set(reflect.ValueOf(net.IPv4(byte(r.Intn(256)), byte(r.Intn(256)), 0, 1))) // 16-byte form, as ParseIP gives it back
+		default:
+			ip := make(net.IP, 16)
+			for i := range ip {
+				ip[i] = byte(r.Intn(256))
+			}
+			ip[0] = 0x20 // not an IPv4-mapped address
+			v.Set(reflect.ValueOf(ip))
+		}
+		return v
+	case blobType, tokenType:
+		switch r.Intn(4) {
+		case 0:
+		case 1:
+			v.SetBytes([]byte{})
+		default:
+			v.SetBytes([]byte(r.Pick(strPool)))
 		}
 		return v
 	case rawMsgType:
@@ -1111,7 +1140,7 @@ func runCase(run *vh.Run, schema *sqlgen.Schema, idx int, c Case) *obs {
 	}
 	run.Hist("table:" + c.Table)
 	if oracleOnly[c.Table] {
-		run.Hist("excluded:json-payload-outside-model(oracle-only)")
+		run.Hist("excluded:payload-outside-model(oracle-only):" + c.Table)
 	}
 
 	var err error
@@ -1353,6 +1382,7 @@ func runCase(run *vh.Run, schema *sqlgen.Schema, idx int, c Case) *obs {
 		ptrZeroImplicit := false // a pointer to a zero value on an implicitnull column
 		ptrOnMarshaler := false  // a pointer on a non-pointer binary-tagged column whose type has Marshal
 		ptrNilJSON := false      // a pointer to a nil slice / map on a json-tagged column
+		ptrNilNamed := false     // a pointer to a nil named byte slice on a string / binary column
 		jsonBytes := false       // a json-tagged []byte column: Valuer encodes base64 JSON, Scanner copies the text
 		ncols := 1 + r.Intn(3)
 		if r.Chance(10) {
@@ -1425,6 +1455,13 @@ func runCase(run *vh.Run, schema *sqlgen.Schema, idx int, c Case) *obs {
 				}
 				_ = rv
 			}
+			if rv := reflect.ValueOf(val); rv.IsValid() && rv.Kind() == reflect.Ptr && !rv.IsNil() && rv.Elem().Kind() == reflect.Slice &&
+				rv.Elem().IsNil() && (col.Descriptor.Tags.Contains("string") || col.Descriptor.Tags.Contains("binary")) {
+				// a pointer to a nil named byte slice on a string / binary column: the text-marshaller analogue of
+				// the open finding proto-pointer-to-nil-on-json-column (net.IP(nil) marshals to "", which
+				// unmarshals to nil, i.e. NULL); not compared, counted
+				ptrNilNamed = true
+			}
 			if col.Descriptor.Type == bytesType && col.Descriptor.Tags.Contains("json") {
 				jsonBytes = true
 			}
@@ -1493,6 +1530,8 @@ func runCase(run *vh.Run, schema *sqlgen.Schema, idx int, c Case) *obs {
 						t2, e2 := schema.MakeTester(c.Table, fo.back)
 						if e2 != nil {
 							failCap(run, idx, "proto-filter-unusable", e2.Error(), c)
+						} else if ptrNilNamed {
+							run.Hist("excluded:filter-pointer-to-nil-named-byte-slice")
 						} else if typed && !nonUTC {
 							for i, row := range fo.rows {
 								if v2 := t2.Test(row); v2 != fo.verdicts[i] {
